@@ -66,8 +66,15 @@ Section GO.
     split; [exact A|]. split; [rewrite B; exact M|]. split; [exact D|]. intros W. apply recache_wf. exact W.
   Qed.
 
-  (* membership answered by the implementation = list membership (inside the guard) *)
-  Lemma go_contains_wf g k : go_wf g -> go_key_ok ceqb g k = true ->
+  (* keys on which the map-less membership test is plain list membership: all but a non-integer-typed
+     key equal to a held position (1.0 on [0,1]) *)
+  Definition go_key_ok (g : go C) (k : key C) : bool :=
+    match g_map g with
+    | Some _ => true
+    | None => int_typed k || negb (memb ceqb (fst k) (g_mut g))
+    end.
+
+  Lemma go_contains_wf g k : go_wf g -> go_key_ok g k = true ->
     M_go_contains ceqb to_Z g k = memb ceqb (fst k) (g_mut g).
   Proof.
     intros W G. pose proof (go_len_wf g W) as L. destruct W as (ND & Cn & Mp & Rc).
@@ -95,7 +102,7 @@ Section GO.
   Proof. unfold zlen. rewrite app_length. cbn. lia. Qed.
 
   (* one append: state stays a bijection and behaves like the specification list *)
-  Lemma go_append_refines g k : go_wf g -> go_key_ok ceqb g k = true ->
+  Lemma go_append_refines_plain g k : go_wf g -> go_key_ok g k = true ->
     go_wf (fst (M_go_append ceqb to_Z g k)) /\
     (g_mut (fst (M_go_append ceqb to_Z g k)), is_ok (snd (M_go_append ceqb to_Z g k))) = S_go_append ceqb (g_mut g) k.
   Proof.
@@ -127,41 +134,73 @@ Section GO.
           split; [exact ND'|]. split; [rewrite zlen_snoc; lia|]. split; [|discriminate]. auto.
   Qed.
 
-  Lemma go_extend_refines ks : forall g, go_wf g -> go_extend_dom ceqb to_Z g ks = true ->
+  (* the remaining keys: a non-integer-typed key equal to a held position of a map-less index.  It is
+     not "contained", takes the promotion path, and AutoMap(labels + [value]) finds the duplicate BEFORE
+     any state is changed (fix feb832d; gen_go_push_before_map = false is re-read from the source, this
+     proof breaks if the push moves in front of the map again) *)
+  Lemma go_append_refines_alias g k : go_wf g -> go_key_ok g k = false ->
+    go_wf (fst (M_go_append ceqb to_Z g k)) /\
+    (g_mut (fst (M_go_append ceqb to_Z g k)), is_ok (snd (M_go_append ceqb to_Z g k))) = S_go_append ceqb (g_mut g) k.
+  Proof.
+    intros W G. unfold go_key_ok in G.
+    pose proof (touch_same g k) as (Tm & Tp & Tc & Tw). cbn in Tm, Tp, Tc, Tw. specialize (Tw W).
+    destruct (g_map g) as [m|] eqn:Mg; [discriminate|].
+    apply orb_false_iff in G. destruct G as [Gi Gm]. apply negb_false_iff in Gm.
+    unfold M_go_append, S_go_append. rewrite Gm.
+    assert (Ki : key_int to_Z k = None) by (unfold key_int; rewrite Gi; reflexivity).
+    assert (Cf : M_go_contains ceqb to_Z g k = false) by (unfold M_go_contains; rewrite Mg, Ki; reflexivity).
+    rewrite Cf. remember (M_go_touch_contains to_Z g k) as g1 eqn:Hg1. clear Hg1.
+    rewrite Tp, Ki.
+    assert (Dup : ~ NoDup (g_mut g1 ++ [fst k])).
+    { intros N. apply NoDup_remove_2 in N. rewrite app_nil_r in N. apply N. rewrite Tm.
+      apply memb_In. exact Gm. }
+    rewrite (am_build_dup C ceqb ceqb_spec _ Dup).
+    unfold Gen_c02.gen_go_push_before_map. cbn [fst snd is_ok]. split; [|rewrite Tm; reflexivity].
+    destruct Tw as (ND & Cn & Mp & Rc). rewrite Tp in Mp. unfold go_wf. cbn. auto.
+  Qed.
+
+  Lemma go_append_refines g k : go_wf g ->
+    go_wf (fst (M_go_append ceqb to_Z g k)) /\
+    (g_mut (fst (M_go_append ceqb to_Z g k)), is_ok (snd (M_go_append ceqb to_Z g k))) = S_go_append ceqb (g_mut g) k.
+  Proof.
+    intros W. destruct (go_key_ok g k) eqn:G.
+    - apply go_append_refines_plain; assumption.
+    - apply go_append_refines_alias; assumption.
+  Qed.
+
+  Lemma go_extend_refines ks : forall g, go_wf g ->
     go_wf (fst (M_go_extend ceqb to_Z g ks)) /\
     (g_mut (fst (M_go_extend ceqb to_Z g ks)), is_ok (snd (M_go_extend ceqb to_Z g ks))) = S_go_extend ceqb (g_mut g) ks.
   Proof.
-    induction ks as [|k ks IH]; intros g W G; cbn [M_go_extend S_go_extend go_extend_dom] in *.
+    induction ks as [|k ks IH]; intros g W; cbn [M_go_extend S_go_extend] in *.
     - cbn. auto.
-    - apply andb_true_iff in G as [G1 G2].
-      pose proof (go_append_refines g k W G1) as [W1 E1].
+    - pose proof (go_append_refines g k W) as [W1 E1].
       destruct (M_go_append ceqb to_Z g k) as [g1 r] eqn:Ea. cbn [fst snd] in *.
       rewrite <- E1. destruct r as [u|e]; cbn [is_ok].
       + apply IH; assumption.
       + cbn. auto.
   Qed.
 
-  Lemma go_step_refines g o : go_wf g -> go_step_dom ceqb to_Z g o = true ->
+  Lemma go_step_refines g o : go_wf g ->
     go_wf (fst (M_go_step ceqb to_Z g o)) /\
     (g_mut (fst (M_go_step ceqb to_Z g o)), is_ok (snd (M_go_step ceqb to_Z g o))) = S_go_step ceqb (g_mut g) o.
   Proof.
-    intros W G. destruct o as [k|ks|]; cbn [M_go_step S_go_step go_step_dom] in *.
+    intros W. destruct o as [k|ks|]; cbn [M_go_step S_go_step] in *.
     - apply go_append_refines; assumption.
     - apply go_extend_refines; assumption.
     - cbn. split; [apply recache_wf; exact W|]. pose proof (recache_same g) as (A & _). cbn in A. rewrite A. reflexivity.
   Qed.
 
   (* every history: the implementation state abstracts to the specification list, outcome by outcome *)
-  Theorem go_run_refines ops : forall g, go_wf g -> go_dom ceqb to_Z g ops = true ->
+  Theorem go_run_refines ops : forall g, go_wf g ->
     go_wf (fst (M_go_run ceqb to_Z g ops)) /\
     (g_mut (fst (M_go_run ceqb to_Z g ops)), map is_ok (snd (M_go_run ceqb to_Z g ops))) = S_go_run ceqb (g_mut g) ops.
   Proof.
-    induction ops as [|o ops IH]; intros g W G; cbn [M_go_run S_go_run go_dom] in *.
+    induction ops as [|o ops IH]; intros g W; cbn [M_go_run S_go_run] in *.
     - cbn. auto.
-    - apply andb_true_iff in G as [G1 G2].
-      pose proof (go_step_refines g o W G1) as [W1 E1].
+    - pose proof (go_step_refines g o W) as [W1 E1].
       destruct (M_go_step ceqb to_Z g o) as [g1 r] eqn:Es. cbn [fst snd] in *.
-      specialize (IH g1 W1 G2). destruct IH as [W2 E2].
+      specialize (IH g1 W1). destruct IH as [W2 E2].
       destruct (M_go_run ceqb to_Z g1 ops) as [g2 rs] eqn:Er. cbn [fst snd] in *.
       rewrite <- E1. rewrite <- E2. cbn. auto.
   Qed.
@@ -211,31 +250,28 @@ Section GO.
   Qed.
 
   (* ---- observation of a grown index ---- *)
-  Definition go_cold_ok (g : go C) : bool :=
-    match g_map g with Some _ => true | None => negb (g_recache g) end.
-
   Definition go_probe_ok (g : go C) (k : key C) : bool :=
     match g_map g with
     | Some _ => true
     | None => auto_key_ok C to_Z (length (g_mut g)) k
     end.
 
-  Theorem go_observe_refines g probes : go_wf g -> go_cold_ok g = true ->
+  Theorem go_observe_refines g probes : go_wf g ->
     forallb (go_probe_ok g) probes = true ->
     M_go_observe ceqb to_Z g probes = S_observe ceqb (g_mut g) probes.
   Proof.
-    intros W Cold G. pose proof (recache_wf g W) as [(ND' & Cn' & Mp' & Rc') R'].
+    intros W G. pose proof (recache_wf g W) as [(ND' & Cn' & Mp' & Rc') R'].
     pose proof (recache_same g) as (Sm & Sp & Sc). cbn in Sm, Sp, Sc.
     pose proof (go_len_wf g W) as L.
     destruct (Rc' R') as [El En].
     unfold M_go_observe, S_observe. rewrite El, En, Sm, Sc.
     destruct W as (ND & Cn & Mp & Rc). rewrite Cn. unfold zlen at 2. rewrite Nat2Z.id. f_equal.
     - apply map_ext_in. intros k Hk. rewrite forallb_forall in G. specialize (G k Hk).
-      unfold M_go_lookup, go_probe_ok, go_cold_ok, S_lookup in *. destruct (g_map g) as [m|].
+      unfold M_go_lookup, go_probe_ok, S_lookup in *. destruct (g_map g) as [m|].
       + destruct Mp as [Wm F]. rewrite (am_get_index C ceqb ceqb_spec m (fst k) Wm), F. reflexivity.
-      + apply negb_true_iff in Cold. destruct (Rc Cold) as [_ Np].
-        replace (if Gen_c02.gen_loc_to_iloc_recaches then g_count g else g_npos g) with (g_count g)
-          by (destruct Gen_c02.gen_loc_to_iloc_recaches; [reflexivity | symmetry; exact Np]).
+      + (* the cached positions are refreshed before they are read (fix 41fcfc5;
+           gen_loc_to_iloc_recaches = true is re-read from the source) *)
+        unfold Gen_c02.gen_loc_to_iloc_recaches. cbv iota.
         rewrite Cn.
         pose proof (auto_lookup_refines C ceqb of_Z to_Z ceqb_spec to_of of_to (length (g_mut g)) k G) as A.
         unfold M_loc_to_iloc, S_lookup, M_index_auto in A. cbn [ix_map ix_labels] in A.
